@@ -182,3 +182,65 @@ func verifC08Normalize(maxAns int) {
 	}
 	_ = reqNSID
 }
+
+// VerifC08PresetTC: a handler response that already has the TC bit set, or whose bulk
+// is in the authority / additional sections, is still cut down to the limit.
+//
+//verif:harness name=H08c-sections tier=quick,thorough bounds="7 transports; request OPT absent or present with symbolic UDP size; configured UDP maximum symbolic; handler response with TC preset or not, 0..2 answers, 0..3 authority and 0..2 additional TXT records of 255 bytes" reach=truncated,not-truncated,preset-tc maxpaths=400000
+//verif:assume Pack output length equals miekg's Len (library contract)
+func VerifC08PresetTC() {
+	tr := verifTransports[verifChoice(len(verifTransports))]
+	req := &dns.Msg{}
+	req.SetQuestion("example.org.", dns.TypeTXT)
+	var reqSize uint16
+	if verifChoice(2) == 1 {
+		reqSize = nondetU16()
+		req.SetEdns0(reqSize, false)
+	}
+	cfgMax := nondetU16()
+	resp := (&dns.Msg{}).SetReply(req)
+	txt := func(name string) dns.RR {
+		return &dns.TXT{Hdr: dns.RR_Header{Name: name, Rrtype: dns.TypeTXT, Class: dns.ClassINET, Ttl: 60}, Txt: []string{strings.Repeat("y", 255)}}
+	}
+	nAns, nNs, nExtra := verifChoice(3), verifChoice(4), verifChoice(3)
+	for i := 0; i < nAns; i++ {
+		resp.Answer = append(resp.Answer, txt("example.org."))
+	}
+	for i := 0; i < nNs; i++ {
+		resp.Ns = append(resp.Ns, txt("org."))
+	}
+	for i := 0; i < nExtra; i++ {
+		resp.Extra = append(resp.Extra, txt("ns.org."))
+	}
+	preset := verifChoice(2) == 1
+	resp.Truncated = preset
+	if preset {
+		verifReach("preset-tc")
+	}
+
+	maxSize := uint16(dns.MaxMsgSize)
+	if tr.name == "udp" {
+		maxSize = cfgMax
+	}
+	normalize(tr.network, tr.proto, req, resp, maxSize)
+
+	limit := 65535
+	if tr.network == NetworkUDP {
+		limit = maxDNSSize(NetworkUDP, reqSize, maxSize)
+	}
+	verifAssert("response-fits-the-transport-limit", resp.Len() <= limit)
+	nExtraLeft := 0
+	for _, rr := range resp.Extra {
+		if _, ok := rr.(*dns.OPT); !ok {
+			nExtraLeft++
+		}
+	}
+	dropped := len(resp.Answer) < nAns || len(resp.Ns) < nNs || nExtraLeft < nExtra
+	verifAssert("tc-set-when-records-were-dropped", !dropped || resp.Truncated)
+	if resp.Truncated {
+		verifAssert("truncated-response-has-no-answers", len(resp.Answer) == 0)
+		verifReach("truncated")
+	} else {
+		verifReach("not-truncated")
+	}
+}
